@@ -44,6 +44,7 @@ class Module:
     imports: dict = field(default_factory=dict)     # local alias -> dotted target
     defs: dict = field(default_factory=dict)        # name -> FunctionDef | ClassDef
     globals_assigned: set = field(default_factory=set)
+    global_consts: dict = field(default_factory=dict)  # name -> value expression, for names bound exactly once (top level, no `global` rebinding)
     star_from: list = field(default_factory=list)
 
     @property
@@ -174,6 +175,18 @@ class Model:
                 for n in ast.walk(node):
                     if isinstance(n, ast.Name) and isinstance(n.ctx, ast.Store):
                         m.globals_assigned.add(n.id)
+        stores = {}
+        for n in ast.walk(m.tree):
+            if isinstance(n, ast.Global):
+                for nm in n.names:
+                    stores[nm] = stores.get(nm, 0) + 2
+        for node in m.tree.body:
+            for n in ast.walk(node) if not isinstance(node, (ast.FunctionDef, ast.AsyncFunctionDef, ast.ClassDef)) else []:
+                if isinstance(n, ast.Name) and isinstance(n.ctx, ast.Store):
+                    stores[n.id] = stores.get(n.id, 0) + 1
+        for node in m.tree.body:
+            if isinstance(node, ast.Assign) and len(node.targets) == 1 and isinstance(node.targets[0], ast.Name) and stores.get(node.targets[0].id) == 1:
+                m.global_consts[node.targets[0].id] = node.value
 
     # ------------------------------------------------------------------ resolution
     def canon(self, dotted: str) -> str:
@@ -230,7 +243,17 @@ class Model:
         f = self.functions.get(q)
         if f is None:
             raise AnalysisError(f"anchor function {q} not found in the analysed tree")
-        return f
+        return getattr(self, "_views", {}).get(q, f)
+
+    def use_inlined(self, *shorts, depth: int = 2):
+        """from now on func(short) is the structural view of the function: void / tail / value calls of private same-module helpers are
+        replaced by their bodies (ttsa/inline.py), so that shape rules read through extract-method refactorings"""
+        from .inline import inlined
+        views = self.__dict__.setdefault("_views", {})
+        for short in shorts:
+            q = short if short.startswith(PKG + ".") else f"{PKG}.{short}"
+            if q in self.functions:
+                views[q] = inlined(self, self.functions[q], depth)
 
     def has_func(self, short: str) -> bool:
         q = short if short.startswith(PKG + ".") else f"{PKG}.{short}"
